@@ -7,9 +7,13 @@ Statements and closing proofs (helpers: `Proofs/DListDerived.lean`, `Proofs/SLis
 twins allocate a header with the **source's allocator triple** (fixes L4/S1), then append the selected
 elements one node at a time; when any node is refused the partial result is destroyed and
 `CC_ERR_ALLOC` is returned.  The model functions return the new list as a separate value and never
-touch the source, so "the source is unchanged" and "the two lists are independent afterwards" hold by
-construction in the model; that the C code does not alias nodes is what the harness checks (both
-lists are observed after every later operation, one is destroyed while the other is used, ASan).
+touch the source, so "the source is unchanged" and "the two lists share no node" hold by
+construction in the model (value semantics — no theorem is claimed for them); that the C code does
+not alias nodes is what the harness checks (both lists are observed after every later operation, one
+is destroyed while the other is used, ASan).  What *is* proved about independence is the ledger side
+(`*_model` theorems below): the result's blocks are obtained in addition to the source's, through the
+source's triple; source and result together form a pair on which every later history behaves like
+the ideal pair; destroying either releases exactly its own blocks and leaves the other's covered.
 
 Quantifiers: every source state satisfying the invariant (empty included where the API allows it),
 every range `b e` in `Nat`, every predicate, every copy function, every allocator state / refusal
@@ -17,107 +21,203 @@ schedule. -/
 namespace CC.Properties.C15List
 open CC CC.Chain
 open CC.Spec
+open CC.Spec.LSeq (Op Out Params)
 open CC.DList (builderResult Mem.buildChain)
+open CC.ListHistory
 
-/-- **What a builder call yields** (`builderResult add m`: header, then one node per element of
-`add`): either a list in canonical state holding exactly `add` — it satisfies the invariant, so it is
-a fully usable list of its own, e.g. it can grow — that owns `1 + add.length` fresh blocks; or
-`CC_ERR_ALLOC`, no object, and **every block obtained on the way released again** (`live` unchanged).
-No checked access faults, the C library allocator is never used. -/
-theorem builder_result (add : List Nat) (m : Mem) :
-    (builderResult add m).2.2.fault = m.fault ∧ (builderResult add m).2.2.libc = m.libc ∧
-    ((builderResult add m).1 = .ok ∨ (builderResult add m).1 = .errAlloc) ∧
-    ((builderResult add m).1 = .ok →
-      ∃ r, (builderResult add m).2.1 = some r ∧ r.Inv ∧ r.abs = add ∧ (builderResult add m).2.2.live = m.live + 1 + add.length) ∧
-    ((builderResult add m).1 = .errAlloc → (builderResult add m).2.1 = none ∧ (builderResult add m).2.2.live = m.live) := by
-  by_cases ha : m.alloc.1 = true
-  · have e1 := Mem.alloc_fst_true m ha
-    have bc := DList.Mem.buildChain_spec add.length 0 m.alloc.2 (by omega)
-    by_cases hb : (Mem.buildChain add.length 0 m.alloc.2).1 = true
-    · have hv : builderResult add m = (.ok, some (ofList add), (Mem.buildChain add.length 0 m.alloc.2).2) := by
+/-- **What a builder call yields** (`builderResult t add m`: header, then one node per element of
+`add`, all through the source's triple `t`): either a list in canonical state holding exactly `add`,
+on the triple `t` — it satisfies the invariant, so it is a fully usable list of its own, e.g. it
+can grow — that owns `1 + add.length` fresh blocks of `t`; or `CC_ERR_ALLOC`, no object, and **every
+block obtained on the way released again** (`liveT t` unchanged).  No checked access faults, the
+other allocator is never touched. -/
+theorem builder_result (t : Triple) (add : List Nat) (m : Mem) :
+    (builderResult t add m).2.2.fault = m.fault ∧ Mem.Frame t m (builderResult t add m).2.2 ∧
+    ((builderResult t add m).1 = .ok ∨ (builderResult t add m).1 = .errAlloc) ∧
+    ((builderResult t add m).1 = .ok →
+      ∃ r, (builderResult t add m).2.1 = some r ∧ r.Inv ∧ r.abs = add ∧ r.triple = t ∧
+        (builderResult t add m).2.2.liveT t = m.liveT t + 1 + add.length) ∧
+    ((builderResult t add m).1 = .errAlloc → (builderResult t add m).2.1 = none ∧ (builderResult t add m).2.2.liveT t = m.liveT t) := by
+  by_cases ha : (m.allocT t).1 = true
+  · have e1 := Mem.allocT_fst_true m t ha
+    have f1 := Mem.frame_allocT t m
+    have bc := DList.Mem.buildChain_spec t add.length 0 (m.allocT t).2 (by omega)
+    by_cases hb : (Mem.buildChain t add.length 0 (m.allocT t).2).1 = true
+    · have hv : builderResult t add m = (.ok, some (ofList t add), (Mem.buildChain t add.length 0 (m.allocT t).2).2) := by
         simp [builderResult, ha, hb]
       rw [hv]
-      refine ⟨by rw [bc.2.2.1, e1.2.1], by rw [bc.2.2.2, e1.2.2], Or.inl rfl, ?_, ?_⟩
-      · intro _; exact ⟨ofList add, rfl, ofList_inv _, rfl, by rw [bc.1 hb, e1.1]⟩
+      refine ⟨by rw [bc.2.2.1, e1.2], f1.trans bc.2.2.2, Or.inl rfl, ?_, ?_⟩
+      · intro _; exact ⟨ofList t add, rfl, ofList_inv _, rfl, rfl, by simp only []; rw [bc.1 hb, e1.1]⟩
       · intro c; cases c
-    · have hb' : (Mem.buildChain add.length 0 m.alloc.2).1 = false := by simpa using hb
-      have hv : builderResult add m = (.errAlloc, none, (Mem.buildChain add.length 0 m.alloc.2).2) := by
+    · have hb' : (Mem.buildChain t add.length 0 (m.allocT t).2).1 = false := by simpa using hb
+      have hv : builderResult t add m = (.errAlloc, none, (Mem.buildChain t add.length 0 (m.allocT t).2).2) := by
         simp [builderResult, ha, hb']
       rw [hv]
-      refine ⟨by rw [bc.2.2.1, e1.2.1], by rw [bc.2.2.2, e1.2.2], Or.inr rfl, ?_, ?_⟩
+      refine ⟨by rw [bc.2.2.1, e1.2], f1.trans bc.2.2.2, Or.inr rfl, ?_, ?_⟩
       · intro c; cases c
       · intro _; exact ⟨rfl, by simp only []; rw [bc.2.1 hb', e1.1]; omega⟩
-  · have ha' : m.alloc.1 = false := by simpa using ha
-    have e1 := Mem.alloc_fst_false m ha'
-    have hv : builderResult add m = (.errAlloc, none, m.alloc.2) := by simp [builderResult, ha']
+  · have ha' : (m.allocT t).1 = false := by simpa using ha
+    have e1 := Mem.allocT_fst_false m t ha'
+    have hv : builderResult t add m = (.errAlloc, none, (m.allocT t).2) := by simp [builderResult, ha']
     rw [hv]
-    exact ⟨e1.2.1, e1.2.2, Or.inr rfl, (by intro c; cases c), fun _ => ⟨rfl, e1.1⟩⟩
+    exact ⟨e1.2.1, Mem.frame_allocT t m, Or.inr rfl, (by intro c; cases c), fun _ => ⟨rfl, e1.1⟩⟩
+
+/-- an object is returned exactly with status `CC_OK`, and it is the canonical list of `add` on `t` -/
+theorem builder_some (t : Triple) (add : List Nat) (m : Mem) (r : Chain) (h : (builderResult t add m).2.1 = some r) :
+    r = ofList t add ∧ (builderResult t add m).1 = .ok := by
+  unfold builderResult at h ⊢
+  by_cases h1 : (m.allocT t).1 = true
+  · simp only [h1, Bool.not_true, Bool.false_eq_true, if_false] at h ⊢
+    by_cases h2 : (Mem.buildChain t add.length 0 (m.allocT t).2).1 = true
+    · simp only [h2, if_true, Option.some.injEq] at h ⊢; exact ⟨h.symm, trivial⟩
+    · simp [h2] at h
+  · simp [h1] at h
 
 /-- **`cc_list_sublist`**: an invalid range (`b > e` or `e ≥ size`, every value of `b`, `e`) is rejected
-with nothing allocated; a valid range builds exactly the elements `b … e` in source order. -/
+with nothing allocated; a valid range builds exactly the elements `b … e` in source order, through
+the source's triple. -/
 theorem dlist_sublist_correct (l : Chain) (h : l.Inv) (b e : Nat) (m : Mem) :
     DList.sublist l b e m =
       if b > e ∨ e ≥ l.abs.length then (.errInvalidRange, none, m)
-      else builderResult ((l.abs.drop b).take (e - b + 1)) m := by
+      else builderResult l.triple ((l.abs.drop b).take (e - b + 1)) m := by
   rw [h.eq, DList.sublist_ofList]
-  simp only [ofList_abs, LSeq.sublist]
+  simp only [ofList_abs, ofList_triple, LSeq.sublist]
   by_cases hr : b > e ∨ e ≥ l.abs.length <;> simp [hr]
 
 /-- **`cc_list_copy_shallow`** (`cp = id`) and **`cc_list_copy_deep`**: the copy holds the copy
 function's images in source order. -/
 theorem dlist_copy_correct (cp : Nat → Nat) (l : Chain) (h : l.Inv) (m : Mem) :
-    DList.copy cp l m = builderResult (l.abs.map cp) m := by
+    DList.copy cp l m = builderResult l.triple (l.abs.map cp) m := by
   rw [h.eq, DList.copy_ofList]; rfl
 
 /-- **`cc_list_filter`**: an empty source is rejected (`CC_ERR_OUT_OF_RANGE`, nothing allocated);
 otherwise exactly the elements satisfying the predicate, in source order. -/
 theorem dlist_filter_correct (p : Nat → Bool) (l : Chain) (h : l.Inv) (m : Mem) :
-    DList.filter p l m = if l.abs = [] then (.errOutOfRange, none, m) else builderResult (l.abs.filter p) m := by
+    DList.filter p l m = if l.abs = [] then (.errOutOfRange, none, m) else builderResult l.triple (l.abs.filter p) m := by
   rw [h.eq, DList.filter_ofList]
-  simp only [ofList_abs, LSeq.filter]
+  simp only [ofList_abs, ofList_triple, LSeq.filter]
   by_cases hx : l.abs = [] <;> simp [hx]
 
 /-- **`cc_slist_sublist`** -/
 theorem slist_sublist_correct (l : Chain) (h : l.Inv) (b e : Nat) (m : Mem) :
     SList.sublist l b e m =
       if b > e ∨ e ≥ l.abs.length then (.errInvalidRange, none, m)
-      else builderResult ((l.abs.drop b).take (e - b + 1)) m := by
+      else builderResult l.triple ((l.abs.drop b).take (e - b + 1)) m := by
   rw [h.eq, SList.sublist_ofList]
-  simp only [ofList_abs, LSeq.sublist]
+  simp only [ofList_abs, ofList_triple, LSeq.sublist]
   by_cases hr : b > e ∨ e ≥ l.abs.length <;> simp [hr]
 
 /-- **`cc_slist_copy_shallow`** / **`cc_slist_copy_deep`** -/
 theorem slist_copy_correct (cp : Nat → Nat) (l : Chain) (h : l.Inv) (m : Mem) :
-    SList.copy cp l m = builderResult (l.abs.map cp) m := by
+    SList.copy cp l m = builderResult l.triple (l.abs.map cp) m := by
   rw [h.eq, SList.copy_ofList]; rfl
 
 /-- **`cc_slist_filter`** -/
 theorem slist_filter_correct (p : Nat → Bool) (l : Chain) (h : l.Inv) (m : Mem) :
-    SList.filter p l m = if l.abs = [] then (.errOutOfRange, none, m) else builderResult (l.abs.filter p) m := by
+    SList.filter p l m = if l.abs = [] then (.errOutOfRange, none, m) else builderResult l.triple (l.abs.filter p) m := by
   rw [h.eq, SList.filter_ofList]
-  simp only [ofList_abs, LSeq.filter]
+  simp only [ofList_abs, ofList_triple, LSeq.filter]
   by_cases hx : l.abs = [] <;> simp [hx]
 
-/-- **The result can grow** (it inherits a working allocator configuration): appending to a freshly
-built list behaves like appending to the ideal list, for every content. -/
-theorem derived_can_grow (add : List Nat) (m : Mem) (r : Chain) (h : (builderResult add m).2.1 = some r) (x : Nat) (m' : Mem)
-    (ha : m'.alloc.1 = true) :
-    DList.addLast r x m' = (.ok, ofList (add ++ [x]), m'.alloc.2) ∧ SList.addLast r x m' = (.ok, ofList (add ++ [x]), m'.alloc.2) := by
-  have hr : r = ofList add := by
-    unfold builderResult at h
-    by_cases h1 : m.alloc.1 = true
-    · simp only [h1, Bool.not_true, Bool.false_eq_true, if_false] at h
-      by_cases h2 : (Mem.buildChain add.length 0 m.alloc.2).1 = true
-      · simp only [h2, if_true, Option.some.injEq] at h; exact h.symm
-      · simp [h2] at h
-    · simp [h1] at h
+/-- **The result can grow** (it inherits a working allocator configuration — the source's triple):
+appending to a freshly built list behaves like appending to the ideal list, for every content. -/
+theorem derived_can_grow (t : Triple) (add : List Nat) (m : Mem) (r : Chain) (h : (builderResult t add m).2.1 = some r) (x : Nat) (m' : Mem)
+    (ha : (m'.allocT t).1 = true) :
+    DList.addLast r x m' = (.ok, ofList t (add ++ [x]), (m'.allocT t).2) ∧
+    SList.addLast r x m' = (.ok, ofList t (add ++ [x]), (m'.allocT t).2) := by
+  obtain ⟨hr, _⟩ := builder_some t add m r h
   subst hr
   rw [DList.addLast_ofList, SList.addLast_ofList]
   simp [ha, LSeq.addLast]
 
+/-! ## Independence — the part that is expressible in the model (ledger separation) -/
+
+/-- **source and result form a usable pair** (`_model`: that they share no node holds by value
+semantics; proved here is that the builder's blocks come on top of the source's, so that both
+lists' node blocks are simultaneously live — in either order of roles — and they sit on the same
+triple, so every operation including `splice` is admissible between them) -/
+theorem derived_pair_model (l : Chain) (hl : l.Inv) (add : List Nat) (m : Mem) (r : Chain)
+    (h : (builderResult l.triple add m).2.1 = some r) (hlive : l.abs.length ≤ m.liveT l.triple) :
+    PairOk (l, r) (builderResult l.triple add m).2.2 ∧ PairOk (r, l) (builderResult l.triple add m).2.2 ∧
+    (∀ ops, Compat (l, r) ops ∧ Compat (r, l) ops) := by
+  obtain ⟨hr, hok⟩ := builder_some l.triple add m r h
+  obtain ⟨_, hfr, _, hk, _⟩ := builder_result l.triple add m
+  obtain ⟨r', e', _, _, _, hlv⟩ := hk hok
+  subst hr
+  have key : ∀ t, ownedBy l.triple l.triple l.abs add t ≤ (builderResult l.triple add m).2.2.liveT t := by
+    intro t
+    by_cases ht : l.triple = t
+    · subst ht; simp only [ownedBy, if_true]; omega
+    · simp [ownedBy, ht]
+  refine ⟨⟨hl, ofList_inv _, ?_⟩, ⟨ofList_inv _, hl, ?_⟩, fun ops => ⟨Or.inl rfl, Or.inl rfl⟩⟩
+  · intro t; simpa [owned] using key t
+  · intro t; have := key t; simp only [owned, ownedBy, ofList_abs, ofList_triple] at this ⊢
+    by_cases ht : l.triple = t <;> simp only [ht, if_true, if_false] at this ⊢ <;> omega
+
+/-- **hence every later history on (source, result) behaves like the ideal pair** — whatever is done
+to one list affects the other only through the explicit bulk operations — under any refusal
+schedule (doubly linked; the singly linked twin follows) -/
+theorem dlist_derived_history_model (P : Params) (l : Chain) (hl : l.Inv) (add : List Nat) (m : Mem) (r : Chain)
+    (h : (builderResult l.triple add m).2.1 = some r) (hlive : l.abs.length ≤ m.liveT l.triple) (ops : List Op) :
+    (DList.run P (l, r) ops (builderResult l.triple add m).2.2).1 =
+      (LSeq.runSkipping true P (l.abs, add) ops ((DList.run P (l, r) ops (builderResult l.triple add m).2.2).1.map (·.st))).1 ∧
+    ((DList.run P (l, r) ops (builderResult l.triple add m).2.2).2.1.1.abs,
+     (DList.run P (l, r) ops (builderResult l.triple add m).2.2).2.1.2.abs) =
+      (LSeq.runSkipping true P (l.abs, add) ops ((DList.run P (l, r) ops (builderResult l.triple add m).2.2).1.map (·.st))).2 ∧
+    (DList.run P (l, r) ops (builderResult l.triple add m).2.2).2.2.fault = m.fault := by
+  obtain ⟨hp, _, hc⟩ := derived_pair_model l hl add m r h hlive
+  have hr := (builder_some l.triple add m r h).1
+  have := C04.dlist_history_refines_skipping P ops (l, r) _ hp (hc ops).1
+  have ea : (l, r).2.abs = add := by rw [hr]; rfl
+  rw [ea] at this
+  exact ⟨this.1, this.2.1, by rw [this.2.2.2, (builder_result l.triple add m).1]⟩
+
+theorem slist_derived_history_model (P : Params) (l : Chain) (hl : l.Inv) (add : List Nat) (m : Mem) (r : Chain)
+    (h : (builderResult l.triple add m).2.1 = some r) (hlive : l.abs.length ≤ m.liveT l.triple) (ops : List Op) :
+    (SList.run P (l, r) ops (builderResult l.triple add m).2.2).1 =
+      (LSeq.runSkipping false P (l.abs, add) ops ((SList.run P (l, r) ops (builderResult l.triple add m).2.2).1.map (·.st))).1 ∧
+    ((SList.run P (l, r) ops (builderResult l.triple add m).2.2).2.1.1.abs,
+     (SList.run P (l, r) ops (builderResult l.triple add m).2.2).2.1.2.abs) =
+      (LSeq.runSkipping false P (l.abs, add) ops ((SList.run P (l, r) ops (builderResult l.triple add m).2.2).1.map (·.st))).2 ∧
+    (SList.run P (l, r) ops (builderResult l.triple add m).2.2).2.2.fault = m.fault := by
+  obtain ⟨hp, _, hc⟩ := derived_pair_model l hl add m r h hlive
+  have hr := (builder_some l.triple add m r h).1
+  have := C04.slist_history_refines_skipping P ops (l, r) _ hp (hc ops).1
+  have ea : (l, r).2.abs = add := by rw [hr]; rfl
+  rw [ea] at this
+  exact ⟨this.1, this.2.1, by rw [this.2.2.2, (builder_result l.triple add m).1]⟩
+
+/-- **destroying the result** releases exactly the blocks the builder obtained (the ledger of the
+triple is back where it was before the builder ran, so the source's blocks are still covered), with
+no fault; **destroying the source instead** releases exactly the source's blocks and leaves the
+result's covered -/
+theorem derived_destroy_model (l : Chain) (hl : l.Inv) (add : List Nat) (m : Mem) (r : Chain)
+    (h : (builderResult l.triple add m).2.1 = some r) (hlive : l.abs.length + 1 ≤ m.liveT l.triple) :
+    (DList.destroy r (builderResult l.triple add m).2.2).liveT l.triple = m.liveT l.triple ∧
+    (DList.destroy r (builderResult l.triple add m).2.2).fault = m.fault ∧
+    (SList.destroy r (builderResult l.triple add m).2.2).liveT l.triple = m.liveT l.triple ∧
+    (SList.destroy r (builderResult l.triple add m).2.2).fault = m.fault ∧
+    (DList.destroy l (builderResult l.triple add m).2.2).liveT l.triple + (l.abs.length + 1) = m.liveT l.triple + 1 + add.length ∧
+    (DList.destroy l (builderResult l.triple add m).2.2).fault = m.fault ∧
+    add.length + 1 ≤ (DList.destroy l (builderResult l.triple add m).2.2).liveT l.triple := by
+  obtain ⟨hr, hok⟩ := builder_some l.triple add m r h
+  obtain ⟨hf, _, _, hk, _⟩ := builder_result l.triple add m
+  obtain ⟨r', e', _, _, _, hlv⟩ := hk hok
+  subst hr
+  have d1 := C04.dlist_destroy_ledger (ofList l.triple add) (ofList_inv _) (builderResult l.triple add m).2.2
+    (by simp only [ofList_abs, ofList_triple]; omega)
+  have d2 := C04.slist_destroy_ledger (ofList l.triple add) (ofList_inv _) (builderResult l.triple add m).2.2
+    (by simp only [ofList_abs, ofList_triple]; omega)
+  have d3 := C04.dlist_destroy_ledger l hl (builderResult l.triple add m).2.2 (by omega)
+  simp only [ofList_abs, ofList_triple] at d1 d2
+  refine ⟨by omega, by rw [d1.2.1, hf], by omega, by rw [d2.2.1, hf], by omega, by rw [d3.2.1, hf], by omega⟩
+
 /-! ## Non-vacuity -/
-example : (DList.sublist (ofList [4, 5, 6, 7]) 1 2 {}).2.1 = some (ofList [5, 6]) := by decide
-example : (DList.filter (fun v => v % 2 == 0) (ofList [4, 5, 6, 7]) { sched := [false, false, true] }).1 = .errAlloc ∧
-    (DList.filter (fun v => v % 2 == 0) (ofList [4, 5, 6, 7]) { sched := [false, false, true] }).2.2.live = 0 := by decide
+example : (DList.sublist (ofList .conf [4, 5, 6, 7]) 1 2 {}).2.1 = some (ofList .conf [5, 6]) := by decide
+example : (DList.sublist (ofList .libc [4, 5, 6, 7]) 1 2 {}).2.1 = some (ofList .libc [5, 6]) ∧
+    (DList.sublist (ofList .libc [4, 5, 6, 7]) 1 2 {}).2.2.liveLibc = 3 ∧
+    (DList.sublist (ofList .libc [4, 5, 6, 7]) 1 2 {}).2.2.live = 0 := by decide
+example : (DList.filter (fun v => v % 2 == 0) (ofList .conf [4, 5, 6, 7]) { sched := [false, false, true] }).1 = .errAlloc ∧
+    (DList.filter (fun v => v % 2 == 0) (ofList .conf [4, 5, 6, 7]) { sched := [false, false, true] }).2.2.live = 0 := by decide
 
 end CC.Properties.C15List
